@@ -69,10 +69,28 @@ inductive FlushRes | ok | err
 inductive TTL | uninit | running | closed
   deriving DecidableEq, Repr
 
-/-- how a running flush function ends: result and, when it fails, how many mutations (in key order) reached the store -/
+/-- the kind of error a failing flush function returns, as far as the code distinguishes kinds:
+    `handleAlreadyExistErr` special-cases an error chain that contains `*tikverr.ErrKeyExist` (for key `k`) -/
+inductive ErrKind | generic | keyExist (k : Bytes)
+  deriving DecidableEq, Repr
+
+/-- the error `Flush` / `FlushWait` hand to the caller: the flush function's error, except that a chain containing
+    ErrKeyExist is replaced by that ErrKeyExist with `Value` set to what the flushing buffer holds for its key
+    (left unset when the flushing buffer has no value for the key) -/
+inductive Reported | generic | keyExist (k : Bytes) (v : Option Bytes)
+  deriving DecidableEq, Repr
+
+/-- `handleAlreadyExistErr` -/
+def translate (flushing : Option Buf) : ErrKind → Reported
+  | .generic => .generic
+  | .keyExist k => .keyExist k (flushing.bind (·.get k))
+
+/-- how a running flush function ends: result, when it fails how many mutations (in key order) reached the store,
+    and the kind of its error -/
 structure Completion where
   res : FlushRes
   applied : Nat
+  kind : ErrKind := .generic
   deriving Repr
 
 abbrev Cache := List (Bytes × Option Bytes)
@@ -95,6 +113,10 @@ structure PState where
   running : Bool := false
   /-- content of `errCh` (capacity 1) -/
   errCh : Option FlushRes := none
+  /-- the kind of the error sitting in `errCh` (meaningful when `errCh = some .err`) -/
+  errKind : ErrKind := .generic
+  /-- the error most recently returned by `Flush` / `FlushWait` -/
+  lastErr : Option Reported := none
   /-- the remote buffer served by `bufferBatchGetter` (locks of this transaction in the store) -/
   store : Buf := []
   /-- `generation` -/
@@ -215,6 +237,9 @@ def complete (s : PState) (c : Completion) : PState :=
       store := s.store.apply ms
       running := false
       errCh := some c.res
+      -- with the callback layer an AlreadyExist key error of a key without the PresumeKeyNotExists flag comes back from
+      -- `extractKeyExistsErr` as a plain error (flags are not exercised)
+      errKind := if s.cfg.layer then .generic else c.kind
       ttl := if s.cfg.layer then
           (match c.res with
            | .ok => if s.ttl == .uninit && f.keys.contains s.primary then .running else s.ttl   -- `c.run` after the primary batch
@@ -247,7 +272,7 @@ def start (s : PState) : PState × Out :=
   let s1 := { s with flushing := some f, mbuf := [], gen := g, errCh := none, hist := (g, f) :: s.hist }
   if s.cfg.layer then
     if s.ttl == .closed then
-      ({ s1 with running := false, errCh := some .err }, .flushed g f false)
+      ({ s1 with running := false, errCh := some .err, errKind := .generic }, .flushed g f false)
     else if f.isEmpty then
       ({ s1 with running := false, errCh := some .ok }, .flushed g f false)
     else
@@ -269,9 +294,9 @@ def start (s : PState) : PState × Out :=
 def await (s : PState) (late : Completion) : PState :=
   if s.running then complete s late else s
 
-/-- `err != nil` after the receive: `p.flushingMemDB = nil; return err` -/
+/-- `err != nil` after the receive: `err = p.handleAlreadyExistErr(err); p.flushingMemDB = nil; return err` -/
 def failWith (s : PState) : PState × Out :=
-  ({ s with flushing := none, errCh := none, failed := true }, .errFlush)
+  ({ s with flushing := none, errCh := none, failed := true, lastErr := some (translate s.flushing s.errKind) }, .errFlush)
 
 /-- `Flush` after the receive from `errCh` -/
 def flushAfterWait (s : PState) : PState × Out :=
